@@ -95,8 +95,8 @@ def plan(tier, seed, ctx):
     # action sets (bit mask over ACTS) x configuration (yield frequency, weak-CAS failure frequency, scheduler pick width)
     # (name, action mask, scheduler picks: 4 bits per step = number of runnable fibers at that step or 0)
     progs = [('faults', 0b111, 0), ('pick1', 0b111, 0x00300000), ('pick2', 0b111, 0x00000020), ('inj', 0b001, 0x20000000)] if tier == 'quick' else \
-            [('faults', 0b111, 0), ('pick1', 0b111, 0x00300000), ('pick2', 0b111, 0x00000020), ('pick3', 0b111, 0x02000300), ('pick4', 0b110, 0x10000001), ('inj', 0b001, 0x20000000)]
-    cfgs = [(1, 2, 10), (2, 13, 1), (3, 0, 2)] if tier == 'quick' else [(1, 2, 10), (2, 13, 1), (3, 0, 2), (16, 13, 10), (0, 1, 3), (5, 3, 2)]
+            [('faults', 0b111, 0), ('pick1', 0b111, 0x00300000), ('pick2', 0b111, 0x00000020), ('pick3', 0b111, 0x00010000), ('pick4', 0b110, 0x30000000), ('inj', 0b001, 0x20000000)]
+    cfgs = [(1, 2, 10), (2, 13, 1), (3, 0, 2)] if tier == 'quick' else [(1, 2, 10), (2, 13, 1), (3, 0, 2), (16, 13, 10), (4, 1, 3), (5, 3, 2)]   # yield frequency >= 1: SetFaultFrequency(0) makes Injector::Reset divide by zero (precondition, see DESIGN 8)
     first = True
     for (mn, mask, picks) in progs:
         for (freq, cas, pick) in cfgs:
